@@ -244,6 +244,17 @@ PROPS["C28"] = {
     "level_note": "Monotone + accounting only; the other page resources are outside the claim.",
 }
 
+PROPS["C10"] = {
+    "enc": ["Allocator::alloc_with_options", "alloc_slow", "alloc_slow_inline", "out_of_memory", "reset_allocation_state", "AllocatorContext::{set_alloc_options, clear_alloc_options, get_alloc_options}",
+            "GlobalState::{is_emergency_collection, allocation_success, is_initialized}", "Options::is_stress_test_gc_enabled"],
+    "sym": "the three allocation options; the emergency / allocation-success flags left by earlier requests; per attempt: success or failure, and (at a safepoint) whether the collection blocked for was an emergency collection; up to 4 attempts",
+    "bound": "The allocator trait's retry loop on a harness allocator whose alloc_slow_once plays Space::acquire (returns memory or fails; on failure at a safepoint counts a collection); requests resolved within 4 attempts; stress testing off; unwind 6.",
+    "outside": "Space::acquire / poll / block_for_gc themselves (need a space with a page resource and a live GC trigger), handle_obvious_oom_request (GCTrigger::will_oom_on_alloc needs a plan), allow_overcommit (decided inside Space::acquire), stress-test paths, more than 4 attempts",
+    "assumptions": COMMON_ASSUME + ["AllocatorContext from the verif_new hook: zero-initialised GlobalState and GCTrigger (only atomic flags are read), Options zero except stress_factor / analysis_factor / precise_stress at their defaults", "alloc_slow_once_traced (two USDT probes around alloc_slow_once: inline asm) overridden by the plain call", "the harness allocator models Space::acquire: a failed attempt at a safepoint has blocked for one collection"],
+    "level_text": "Bounded symbolic execution (Kani/CBMC) of the real allocation retry loop for every combination of allocation options, every pre-existing emergency/success flag state and every <= 4-attempt outcome script: out_of_memory is called only if allow_oom_call, only after a collection was attempted for the request, at most once, and the request then returns null; without a safepoint a failed attempt returns null at once; the options are reset afterwards.",
+    "level_note": "Retry-loop kernel only; found F6.",
+}
+
 NOT_APPLICABLE = {}
 _L = ("observable only on a live collector (MMTK instance, mmap'd heap, OS worker threads, VM call-backs); Kani has no thread/FFI model and a "
       "whole collection is outside any unwinding bound; the bit-level kernels are decided under ")
@@ -269,7 +280,6 @@ NOT_APPLICABLE.update({
 })
 # Planned in DESIGN.md section 3 but not claimed (reasons measured or stated in DESIGN.md section 8.6).
 NOT_APPLICABLE.update({
-    "C10": "the retry-loop kernel (Allocator::alloc_slow_inline) needs an AllocatorContext with Arc<Options> and Arc<GCTrigger>; Options::default() goes through env-var/String parsing (DESIGN P11: does not encode) and GCTrigger::new needs a boxed policy from Options; Space::acquire/poll need a space with a page resource",
     "C29": "Map32 keeps two Vec<i32> link tables, a descriptor Vec and two IntArrayFreeLists behind a Mutex and calls the global SFT_MAP (InitializeOnce<Box<dyn SFTMap>>, AtomicU128 entries: inline asm not executable by Kani) on every free; the free-list component alone is at the memory limit for 6 units / 3 operations (C26), so histories over the composed structure are out of reach",
     "C37": "DESIGN P19: the two-block / two-object formulation of ForwardingMetadata did not finish in 14 min at 5 GB (the bit-scan loop is unrolled to the global bound at every call site); the planned split formulation was not built in the available time",
 })
